@@ -126,6 +126,18 @@ def run_scenario(name: str, seed: int, steps: int, blue: str = "random", tweak_i
                 else:
                     sim["login-failure"] += 1
                     sim["login-failure-without-reason"] += int("reason" not in (h.response.data or {}))
+            elif h.action in ("node-nmap-ping-scan", "node-nmap-port-scan", "node-network-service-recon"):
+                # `ScanSimOk` (Props/C19NoRaise1.lean, tie C19_gen_scan_resp_sites): a successful scan answer is `{"live_hosts": list}`
+                # or a dict host -> dict protocol -> list of ports; any other answer carries a dict
+                d = h.response.data
+                key = "scan-success" if h.response.status == "success" else "scan-other"
+                sim[key] = sim.get(key, 0) + 1
+                shaped = isinstance(d, dict) and (h.response.status != "success" or (
+                    isinstance(d.get("live_hosts"), list) if h.action == "node-nmap-ping-scan" else
+                    all(isinstance(e, dict) and all(isinstance(ps, (list, tuple)) for ps in e.values()) for e in d.values())))
+                if not shaped:
+                    viol.append({"agent": n, "what": "scan-response-not-ScanSimOk", "detail": [h.timestep, h.action, repr(d)[:120]]})
+                    break
         non_idle = [x for x in acts if x[1] != "do-nothing"]
         if isinstance(a, PeriodicAgent):          # includes DataManipulationAgent
             s = a.config.agent_settings
